@@ -161,6 +161,26 @@ func inject(t *rapid.T, src string, rate int) (string, int) {
 	return b.String(), n
 }
 
+// uniquify gives every comment of a corpus file a distinct text (" ~k" appended), so that the
+// comment multisets can tell apart the many identical "// Trailing" comments of the corpus.
+func uniquify(src string) string {
+	items := splitItems(src)
+	k := 0
+	for i, it := range items {
+		body := strings.TrimRight(it, " \t\r\n\f\v")
+		ws := it[len(body):]
+		switch {
+		case strings.HasPrefix(body, "//"):
+			k++
+			items[i] = fmt.Sprintf("%s ~%d%s", body, k, ws)
+		case strings.HasPrefix(body, "/*") && strings.HasSuffix(body, "*/") && len(body) >= 4:
+			k++
+			items[i] = fmt.Sprintf("%s ~%d */%s", strings.TrimSuffix(body, "*/"), k, ws)
+		}
+	}
+	return strings.Join(items, "")
+}
+
 // TestCorpus runs the oracle over the formatter's own test inputs, unmodified and mutated.
 func TestCorpus(t *testing.T) {
 	r := evid.R()
@@ -175,6 +195,11 @@ func TestCorpus(t *testing.T) {
 			t.Fatalf("harness: %v", err)
 		}
 		texts[i] = string(data)
+		if u := uniquify(texts[i]); u != "" {
+			if _, err := parseSrc("corpus.proto", u); err == nil {
+				texts[i] = u
+			}
+		}
 	}
 	rounds := r.Pick(2, 30)
 	r.Check(t, r.Scale(len(files)*rounds, len(files)*rounds), 3, func(t *rapid.T) {
